@@ -1824,15 +1824,39 @@ def _pad_case(o, f, r, v, parts, conds, tp, wp):
     if j is None and lj is None and wrong_lj is not None:
         o.refute(f, r, wrong_lj, f"the text is padded by `{src(wrong_lj)}`, expected padding with spaces to exactly `{wp}`")
         return
+    tpat = tp
     if j is None and lj is None:
-        o.undecided(f, r, r, f"returned value `{src(v)[:100]}` does not contain the text parameter as a part of a concatenation")
-        return
+        # the text is transformed before it is padded: text.replace(..).expandtabs() ...
+        for i, p in enumerate(parts):
+            chain = _text_chain(p, tp)
+            if chain:
+                j = i
+                break
+        if j is None:
+            o.undecided(f, r, r, f"returned value `{src(v)[:100]}` does not contain the text parameter as a part of a concatenation")
+            return
+        longer = [c_ for c_ in chain if c_[0] == 'longer']
+        strips = [c_ for c_ in chain if c_[0] == 'strip']
+        if longer:
+            o.refute(f, r, parts[j], f"the text is changed by `{src(longer[0][1])[:110]}` before it is padded, but the column widths were "
+                                      f"measured from the raw cell text: {longer[0][2]}, so such a cell is wider than its column and its "
+                                      f"line longer than the others")
+            return
+        if strips:
+            o.refute(f, r, parts[j], f"the text is stripped (`{src(strips[0][1])[-40:]}`) before it is padded: leading spaces - the "
+                                      f"three-spaces-per-level indentation of a name cell - are removed")
+            return
+        if any(c_[0] == 'unknown' for c_ in chain):
+            o.undecided(f, r, parts[j], f"the text is transformed by `{src(parts[j])[:80]}` before it is padded; the rule cannot tell whether "
+                                        f"its length still fits the measured column width")
+            return
+        tpat = src(parts[j])        # length-preserving or shortening only: the padded text is the transformed one
     if lj is not None:
         before, after = parts[:lj], parts[lj + 1:]
     else:
         nxt = parts[j + 1] if j + 1 < len(parts) else None
-        verdict = _pad_part(nxt, tp, wp)
-        if verdict is None and j > 0 and _pad_part(parts[j - 1], tp, wp) == 'ok':
+        verdict = _pad_part(nxt, tpat, wp, tp)
+        if verdict is None and j > 0 and _pad_part(parts[j - 1], tpat, wp, tp) == 'ok':
             o.refute(f, r, parts[j - 1], f"the return under [{conds}] yields `{shown[:80]}`: the padding is put in FRONT of the text (right "
                                          f"aligned), so the text no longer starts at the column's left edge and a name cell loses its "
                                          f"three-spaces-per-level indentation")
@@ -1862,8 +1886,36 @@ def _pad_case(o, f, r, v, parts, conds, tp, wp):
         o.site(f, r, f"[{conds}] returns {shown[:90]}")
 
 
-def _pad_part(p, tp, wp):
-    """'ok' | refutation text | None (not a padding term)"""
+def _text_chain(p, tp):
+    """p is the text parameter sent through str methods (`text.replace(a, b).expandtabs()`): the steps, outermost first, as
+    ('same' | 'shorter' | 'longer' | 'strip' | 'unknown', call node, explanation); None when p is not such a chain"""
+    out = []
+    e = p
+    while isinstance(e, ast.Call) and isinstance(e.func, ast.Attribute):
+        name, args = e.func.attr, e.args
+        if name == 'replace' and len(args) == 2 and const_str(args[0]) is not None and const_str(args[1]) is not None:
+            a, b = const_str(args[0]), const_str(args[1])
+            if len(b) > len(a):
+                out.append(('longer', e, f"every {a!r} becomes the {len(b)} characters {b!r}"))
+            else:
+                out.append(('same' if len(a) == len(b) else 'shorter', e, ''))
+        elif name == 'expandtabs':
+            out.append(('longer', e, "every tab becomes up to 8 spaces"))
+        elif name in ('strip', 'lstrip'):
+            out.append(('strip', e, ''))
+        elif name in ('rstrip', 'upper', 'lower'):
+            out.append(('shorter' if name == 'rstrip' else 'same', e, ''))
+        else:
+            out.append(('unknown', e, ''))
+        e = e.func.value
+    if out and isinstance(e, ast.Name) and e.id == tp:
+        return out
+    return None
+
+
+def _pad_part(p, tp, wp, tp_name=None):
+    """'ok' | refutation text | None (not a padding term); tp: source text of the padded text expression"""
+    tp_name = tp_name or tp
     if p is None or not (isinstance(p, ast.BinOp) and isinstance(p.op, ast.Mult)):
         return None
     a, b = p.left, p.right
@@ -1879,9 +1931,9 @@ def _pad_part(p, tp, wp):
     m = match(f"max($*x)", b)
     if m and len(m['x']) == 2 and any(match(f"{wp} - len({tp})", x) for x in m['x']) and any(is_zero(x) for x in m['x']):
         return 'ok' if s == ' ' else f"padding repeats {s!r} instead of one space per missing character"
-    if mentions(b, wp) and mentions(b, tp):
+    if mentions(b, wp) and mentions(b, tp_name):
         return f"padding is `{src(p)}`: the text is padded to a width different from `{wp}`"
-    if mentions(b, wp) or mentions(b, tp):
+    if mentions(b, wp) or mentions(b, tp_name):
         return f"padding is `{src(p)}`, expected ' ' * ({wp} - len({tp}))"
     return None
 
@@ -2187,37 +2239,63 @@ def _links(ctx):
         found = {k: False for k in table}
         for r in [n for n in walk_no_nested(h.node) if isinstance(n, ast.Return) and n.value is not None]:
             rn = cfg.node_of(r)
-            key = None
+            keys = []
             for tt, p in cfg.conditions(rn):
                 for a, ap in facts.split_conj(ex.expand(tt, cfg.node_containing(tt)), p):
                     q = eq_const(a, ap)
                     if q and q[2] and isinstance(q[0], ast.Name) and q[0].id == fld and q[1] in table:
-                        key = q[1]
-            if key is None:
-                continue
-            found[key] = True
-            pat, attr = table[key]
-            v = ex.expand(r.value, rn)
-            hits = [match(pat, x) for x in ast.walk(v) if isinstance(x, ast.Call)]
-            hits = [m for m in hits if m]
-            other_pat = one_pat if pat is many_pat else many_pat
-            if not hits:
-                if any(match(other_pat, x) for x in ast.walk(v) if isinstance(x, ast.Call)):
-                    o.refute(h, r, r.value, f"column `{key}` is printed by the wrong helper: `{src(v)[:80]}`")
-                else:
-                    o.undecided(h, r, r.value, f"column `{key}` is not printed through the linked-id helpers")
-                continue
-            m = hits[0]
-            if match(t, m['a']) and match(f"{t}.{attr}", m['b']):
-                o.site(h, r, f"{key}: {src(v)[:80]}")
-            else:
-                o.refute(h, r, r.value, f"column `{key}` prints `{src(v)[:80]}`; expected the helper applied to ({t}, {t}.{attr})")
+                        keys = [q[1]]
+                    # `field in ('predecessors', 'successors')`: one return for several columns
+                    if isinstance(a, ast.Compare) and len(a.ops) == 1 and isinstance(a.ops[0], (ast.In, ast.NotIn)) and isinstance(a.left, ast.Name) \
+                            and a.left.id == fld and isinstance(a.comparators[0], (ast.Tuple, ast.List, ast.Set)) \
+                            and (isinstance(a.ops[0], ast.In) == ap) and not keys:
+                        keys = [const_str(x) for x in a.comparators[0].elts if const_str(x) in table]
+            for key in keys:
+                _link_column(o, h, r, rn, key, table, found, ex, fld, t, one_pat, many_pat)
         for k, ok in found.items():
             if not ok:
-                o.refute(h, h.node, f"no branch for {k}", f"__get_field_value has no branch for field '{k}': the generic attribute lookup cannot "
-                                                          f"see the relation, the column stays empty")
+                if any(isinstance(n, ast.Constant) and n.value == k for n in ast.walk(h.node)):
+                    o.undecided(h, h.node, f"no branch for {k}", f"__get_field_value mentions '{k}' but not as `if {fld} == '{k}': return ..`: the "
+                                                                 f"rule cannot see what that column prints")
+                else:
+                    o.refute(h, h.node, f"no branch for {k}", f"__get_field_value has no branch for field '{k}' (the name does not occur in it): "
+                                                              f"the generic attribute lookup cannot see the relation, the column stays empty")
     ctx.guarded(o2, cols)
 
+
+
+def _specialise(v, fld, key):
+    """v with the conditional expressions that test `fld == '<const>'` decided for fld == key"""
+    class Tr(ast.NodeTransformer):
+        def visit_IfExp(self, n):
+            self.generic_visit(n)
+            q = eq_const(n.test, True)
+            if q and isinstance(q[0], ast.Name) and q[0].id == fld and isinstance(q[1], str):
+                return n.body if (q[1] == key) == q[2] else n.orelse
+            return n
+    import copy as _copy
+    return Tr().visit(_copy.deepcopy(v))
+
+
+def _link_column(o, h, r, rn, key, table, found, ex, fld, t, one_pat, many_pat):
+    """verdict for the return r of __get_field_value that prints column `key`"""
+    found[key] = True
+    pat, attr = table[key]
+    v = _specialise(ex.expand(r.value, rn), fld, key)
+    hits = [match(pat, x) for x in ast.walk(v) if isinstance(x, ast.Call)]
+    hits = [m for m in hits if m]
+    other_pat = one_pat if pat is many_pat else many_pat
+    if not hits:
+        if any(match(other_pat, x) for x in ast.walk(v) if isinstance(x, ast.Call)):
+            o.refute(h, r, r.value, f"column `{key}` is printed by the wrong helper: `{src(v)[:80]}`")
+        else:
+            o.undecided(h, r, r.value, f"column `{key}` is not printed through the linked-id helpers")
+        return
+    m = hits[0]
+    if match(t, m['a']) and match(f"{t}.{attr}", m['b']):
+        o.site(h, r, f"{key}: {src(v)[:80]}")
+    else:
+        o.refute(h, r, r.value, f"column `{key}` prints `{src(v)[:80]}`; expected the helper applied to ({t}, {t}.{attr})")
 
 
 # ============================================================================================================== usage
@@ -2295,10 +2373,24 @@ def _usage(ctx):
                     steps.append((n, d0, ast.Add() if m else ast.Sub(), (m or m2)['x']))
         steps = [s_ for s_ in steps if mentions(w.test, s_[1])]
         if not steps:
-            ob.refute(g, w, w.test, "the day variable of the loop is never advanced")
+            if isinstance(w.test, ast.Constant) or any(isinstance(n, ast.Break) for n in walk_no_nested(w)):
+                ob.undecided(g, w, w.test, f"`while {src(w.test)}` loop left by break: not a `while day <= last day` loop the rule can follow")
+            else:
+                ob.refute(g, w, w.test, "the day variable of the loop is never advanced")
             return None
         d = steps[0][1]
         c3 = cmp_oriented(w.test, True, lambda x: isinstance(x, ast.Name) and x.id == d)
+        if c3 is None and isinstance(w.test, ast.BoolOp) and isinstance(w.test.op, ast.And):
+            # `while d <= last and <something else>`: the day comparison plus a further stop condition
+            for cand in [s_[1] for s_ in steps]:
+                hits = [v for v in w.test.values if cmp_oriented(v, True, lambda x: isinstance(x, ast.Name) and x.id == cand)
+                        and cmp_oriented(v, True, lambda x: isinstance(x, ast.Name) and x.id == cand)[1] in ('<=', '<')]
+                extra = [v for v in w.test.values if not any(v is h for h in hits)]
+                if len(hits) == 1 and extra and facts.day_delta(Expander(prog, g, ctx.typer).expand(
+                        next(s_[3] for s_ in steps if s_[1] == cand), cfg_of(g).node_of(next(s_[0] for s_ in steps if s_[1] == cand)))) is not None:
+                    ob.refute(g, w, extra[0], f"the day loop also stops as soon as `{src(extra[0])}` fails (`{src(w.test)[:80]}`): a longer "
+                                              f"report is cut off before the day of the last reservation")
+                    return None
         if c3 is None:
             ob.undecided(g, w, w.test, f"loop test `{src(w.test)}` is not a comparison of the day with the last day")
             return None
@@ -2407,6 +2499,7 @@ def _usage(ctx):
             w = whiles[0]
             info = while_loop(o, f, w)
             if info is None:
+                o2.undecided(f, f.node, '__repr__', "cells per day not compared: the day loop was not recognised")
                 return
             d, wn, dref = info['d'], info['wn'], info['wn']
             bounds.append(('last day', xexpand(ex, info['bound'], wn), w, 'max', 'min'))
@@ -2537,6 +2630,14 @@ def _for_day_loop(ctx, o, f, w, it, ex, cfg, bounds, while_loop, step_sizes, day
         if m and same(m['F'], first):
             o.site(f, w, f"{src(n_expr)[:80]} days")
             return m['L']
+        caps = facts.flatten_lattice(n_expr, 'min')
+        if caps is not None:
+            full = [a for a in caps if (match("($L - $F).days + 1", a) or match("1 + ($L - $F).days", a))]
+            if len(full) == 1 and len(caps) > 1:
+                rest = ', '.join(src(a) for a in caps if a is not full[0])
+                o.refute(f, w, n_expr, f"the number of day lines is capped: `{src(n_expr)[:90]}` - a report that spans more than `{rest}` "
+                                       f"days is cut off before the day of the last reservation")
+                return 'refuted'
         m0 = match("($L - $F).days", n_expr)
         if m0 and same(m0['F'], first):
             o.refute(f, w, n_expr, f"the loop runs `{src(n_expr)[:80]}` times: the day of the last reservation gets no line "
@@ -2740,15 +2841,20 @@ def _field_texts(ctx):
             o.refute(f, f.node, 'falls off the end', "__get_field_value can end without a return: the cell text is None")
         raw = [c for c in walk_no_nested(f.node) if isinstance(c, ast.Call) and (
             (isinstance(c.func, ast.Attribute) and c.func.attr == '__getattribute__') or
-            (isinstance(c.func, ast.Name) and c.func.id == 'getattr' and len(c.args) == 2))]
-        guard = None
+            (isinstance(c.func, ast.Name) and c.func.id == 'getattr' and len(c.args) in (2, 3) and match(t, c.args[0])))]
+        guard = by_hasattr = None
         for r in rets:
             if r.value is not None and const_str(r.value) == '':
                 for tt, p in cfg.conditions(cfg.node_of(r)):
                     for a, ap in facts.split_conj(tt, p):
                         if (match(f"{fld} not in {t}.__dict__", a) and ap) or (match(f"{fld} in {t}.__dict__", a) and not ap) or \
-                                (match(f"hasattr({t}, {fld})", a) and not ap):
+                                (match(f"{fld} not in vars({t})", a) and ap) or (match(f"{fld} in vars({t})", a) and not ap):
                             guard = r
+                        elif match(f"hasattr({t}, {fld})", a) and not ap:
+                            by_hasattr = a
+        if raw and by_hasattr is not None and guard is None:
+            o.refute(f, by_hasattr, 'hasattr lookup', _HASATTR_MSG.format(test=src(by_hasattr), t=t))
+            return
         if raw and guard is not None:
             o.site(f, guard, "unknown field -> ''")
             return
@@ -2762,8 +2868,15 @@ def _field_texts(ctx):
             cn = cfg.node_containing(c)
             a = c.args[0] if isinstance(c.func, ast.Attribute) else c.args[1]
             why = _lookup_guarded(ex, cfg, f, t, a, cn)
+            if isinstance(c.func, ast.Name) and len(c.args) == 3 and not (why and why[0] == 'ok'):
+                # getattr with a default never raises, but it resolves class attributes as well
+                o.refute(f, c, 'hasattr lookup', _HASATTR_MSG.format(test=src(c), t=t))
+                return
             if why is None:
                 all_ok = False
+            elif why[0] == 'hasattr':
+                o.refute(f, c, 'hasattr lookup', why[1])
+                return
             elif why[0] == 'bad' and not (isinstance(a, ast.Name) and a.id == fld):
                 o.refute(f, c, 'unknown field', f"{why[1]}: an unknown field raises instead of printing an empty column")
                 return
@@ -2796,6 +2909,11 @@ def _field_texts(ctx):
     ctx.guarded(o, run)
 
 
+_HASATTR_MSG = ("the field name is resolved with `{test}`: besides the attributes stored on the task ({t}.__dict__) this finds the "
+                "properties and methods of Task (wbs, children, all_children, clone, ...), whose str() is a nested multi-line sheet or a "
+                "bound-method repr - such a column is no longer empty and its lines break the table")
+
+
 def ctx_target(ctx, f, call):
     """the package function a call resolves to (None for builtins / methods of foreign objects)"""
     for ci in ctx.cg.calls_in(f):
@@ -2824,15 +2942,20 @@ def _lookup_guarded(ex, cfg, f, t, name_expr, cn):
         while isinstance(a, ast.UnaryOp) and isinstance(a.op, ast.Not):
             a, ap = a.operand, not ap
         if isinstance(a, ast.Compare) and len(a.ops) == 1 and isinstance(a.ops[0], (ast.In, ast.NotIn)) \
-                and match(f"{t}.__dict__", a.comparators[0]):
-            return a.left, ap if isinstance(a.ops[0], ast.In) else not ap
+                and (match(f"{t}.__dict__", a.comparators[0]) or match(f"vars({t})", a.comparators[0])):
+            return a.left, ap if isinstance(a.ops[0], ast.In) else not ap, 'dict'
         m = match(f"hasattr({t}, $n)", a)
         if m:
-            return m['n'], ap
+            return m['n'], ap, a
         return None
 
+    via_hasattr = []
+
     def has(conds, alt):
-        return any(mb is not None and mb[1] and same(mb[0], alt) for mb in (membership(a, ap) for a, ap in conds))
+        hits = [mb for mb in (membership(a, ap) for a, ap in conds) if mb is not None and mb[1] and same(mb[0], alt)]
+        if hits and not any(mb[2] == 'dict' for mb in hits):
+            via_hasattr.append(hits[0][2])
+        return bool(hits)
 
     def is_none_test(a, ap):
         c = cmp_norm(a, ap)
@@ -2853,6 +2976,8 @@ def _lookup_guarded(ex, cfg, f, t, name_expr, cn):
         return True
 
     if has(path, name_expr):
+        if via_hasattr:
+            return 'hasattr', _HASATTR_MSG.format(test=src(via_hasattr[0]), t=t)
         return 'ok', f"read under `{src(name_expr)} in {t}.__dict__`"
     alts = 0
     for (cs, leaf), _ in _ifexp_cases(e):
@@ -2873,4 +2998,6 @@ def _lookup_guarded(ex, cfg, f, t, name_expr, cn):
         alts += 1
     if not alts:
         return None
+    if via_hasattr:
+        return 'hasattr', _HASATTR_MSG.format(test=src(via_hasattr[0]), t=t)
     return 'ok', f"`{src(name_expr)}` = {src(e)[:90]}"
